@@ -351,6 +351,9 @@ def gen_link(d, mol, mode, previous):
         node_codes = [c + shift if isinstance(c, int) else c for c in node_codes]
     if d.pr(12):
         node_codes[d.ri(0, len(chosen) - 1)] = d.ch(ALL_CODES)
+    symmetric = (len(chosen) == 2 and attrs_of[chosen[0]]['atomname'] == attrs_of[chosen[1]]['atomname'] and d.pr(75))
+    if symmetric:
+        node_codes = list(d.ch([[0, '*'], ['*', '**'], [0, '*'], ['>', '*']]))
 
     link = {'all': [], 'nodes': [], 'edges': [], 'inter': [], 'removed': [], 'non_edges': [],
             'patterns': [], 'molmeta': [], 'features': [], 'style': [d.ri(0, 5) for _ in range(16)]}
@@ -395,6 +398,8 @@ def gen_link(d, mol, mode, previous):
         candidates = [k for k in attr_keys if k not in all_keys]
         for akey in d.sample(candidates, d.ch([0, 0, 1, 1, 2])):
             specs.append([akey, gen_spec(d, akey, attrs_of[b].get(akey, 'absent'), mode, mode == 'object')])
+        if symmetric and idx == 1:
+            specs = copy.deepcopy(link['nodes'][0]['attrs'])
         link['nodes'].append({'key': key, 'order': code, 'attrs': specs, 'replace': None})
     keys = [node['key'] for node in link['nodes']]
     key_of = dict(zip(chosen, keys))
@@ -405,7 +410,7 @@ def gen_link(d, mol, mode, previous):
         for b in chosen[i + 1:]:
             if b in adj[a]:
                 target.add(frozenset((key_of[a], key_of[b])))
-    if target and d.pr(8):
+    if target and d.pr(12):
         target.discard(d.ch(sorted(target, key=sorted)))
     if len(keys) >= 2 and d.pr(5):
         a, b = d.sample(keys, 2)
@@ -425,9 +430,18 @@ def gen_link(d, mol, mode, previous):
         link['edges'] = [list(reversed(e)) for e in link['edges']]
 
     # removals
-    if len(keys) >= 2 and d.pr(32):
+    if d.pr(36):
+        inside = [i for i in mol['inter'] if all(a in key_of for a in i[1])]
         for _ in range(d.ch([1, 1, 1, 2])):
-            link['removed'].append(gen_removal(d, link, keys, target, mode))
+            if inside and d.pr(65):
+                type_, atoms, params, meta = d.ch(inside)
+                rmeta = {'version': meta['version']} if 'version' in meta and d.pr(75) else {}
+                if 'version' not in meta and d.pr(10):
+                    rmeta = {'version': d.ri(1, 2)}
+                rparams = list(params) if d.pr(25) else []
+                link['removed'].append([type_, [key_of[a] for a in atoms], [[] for _ in atoms], rparams, rmeta])
+            elif len(keys) >= 2:
+                link['removed'].append(gen_removal(d, link, keys, target, mode))
 
     # non-edges
     anchors = [node['key'] for node in link['nodes'] if node['order'] == 0 and isinstance(node['order'], int)]
@@ -476,7 +490,7 @@ def gen_link(d, mol, mode, previous):
     # replacements / deletion
     if d.pr(30):
         gen_replace(d, link)
-    if d.pr(6):
+    if d.pr(10):
         d.ch(link['nodes'])['replace'] = {'atomname': None}
     return link
 
@@ -1065,8 +1079,214 @@ def _run_table(case):
     return Outcome(['cell:' + cell], cell != '!')
 
 
+# ---------------------------------------------------------------------------
+# part: shipped (B)
+
+SHIPPED = {}
+SHIPPED_NAMES = ['martini3001', 'martini22']
+SHIPPED_RESNAMES = ['GLY', 'ALA', 'CYS', 'VAL', 'LEU', 'ILE', 'MET', 'PRO', 'ASN', 'GLN', 'ASP', 'GLU',
+                    'THR', 'SER', 'LYS', 'ARG', 'PHE', 'TYR', 'TRP']
+SHIPPED_SS = ['H', 'H', 'C', 'C', 'E', 'S', 'T', '1', '2', '3', 'F']
+
+
+def _value_to_spec(value):
+    if isinstance(value, Choice):
+        return ['in', list(value.value)]
+    if isinstance(value, NotDefinedOrNot):
+        return ['not', value.value]
+    if isinstance(value, LinkPredicate):
+        raise ValueError('unknown predicate')
+    return ['=', value]
+
+
+def _param_to_case(param):
+    if isinstance(param, LinkParameterEffector):
+        for name, (_n, cls) in EFFECTORS.items():
+            if type(param) is cls:
+                return [name, list(param.keys), param.format]
+        raise ValueError('unknown effector')
+    if not isinstance(param, str):
+        raise ValueError('parameter is not text')
+    return param
+
+
+def translate_link(link):
+    """Structural translation of a parsed Link object into the reference's
+    link description (reads the data fields only).  Raises ValueError for
+    links using something the reference does not interpret."""
+    out = {'all': [], 'nodes': [], 'edges': [], 'inter': [], 'removed': [], 'non_edges': [],
+           'patterns': [], 'molmeta': [], 'features': sorted(link.features)}
+    for key, attrs in link.nodes(data=True):
+        if 'modifications' in attrs or 'order' not in attrs:
+            raise ValueError('modifications / missing order')
+        ref.order_category(attrs['order'])
+        specs = [[k, _value_to_spec(v)] for k, v in attrs.items() if k not in ('order', 'replace')]
+        out['nodes'].append({'key': key, 'order': attrs['order'], 'attrs': specs,
+                             'replace': dict(attrs['replace']) if attrs.get('replace') else None})
+    out['edges'] = [[a, b] for a, b in link.edges]
+    for type_, interactions in link.interactions.items():
+        for inter in interactions:
+            out['inter'].append([type_, list(inter.atoms), [_param_to_case(p) for p in inter.parameters], dict(inter.meta)])
+    for type_, interactions in link.removed_interactions.items():
+        for inter in interactions:
+            atom_specs = [[[k, _value_to_spec(v)] for k, v in attrs.items()] for attrs in inter.atom_attrs]
+            out['removed'].append([type_, list(inter.atoms), atom_specs,
+                                   [_param_to_case(p) for p in inter.parameters], dict(inter.meta)])
+    for anchor, attrs in link.non_edges:
+        order = attrs.get('order', 0)
+        if not isinstance(order, int) or isinstance(order, bool) or 'modifications' in attrs:
+            raise ValueError('non-edge order')
+        if anchor not in link.nodes or link.nodes[anchor].get('order') != 0:
+            raise ValueError('non-edge anchor outside the reference residue')
+        out['non_edges'].append([anchor, order, [[k, _value_to_spec(v)] for k, v in attrs.items()
+                                                if k not in ('order', 'replace')]])
+    for pattern in link.patterns:
+        entries = []
+        for key, attrs in pattern:
+            if 'modifications' in attrs or key not in link.nodes:
+                raise ValueError('pattern')
+            entries.append([key, [[k, _value_to_spec(v)] for k, v in attrs.items() if k not in ('order', 'replace')]])
+        out['patterns'].append(entries)
+    out['molmeta'] = [[k, _value_to_spec(v)] for k, v in link.molecule_meta.items()]
+    return out
+
+
+def preload():
+    for name in SHIPPED_NAMES:
+        if name in SHIPPED:
+            continue
+        full = vermouth.forcefield.ForceField(str(vermouth.DATA_PATH / 'force_fields' / name))
+        light = vermouth.forcefield.ForceField(name=name)
+        light.blocks = full.blocks
+        cases = []
+        skipped = 0
+        for link in full.links:
+            try:
+                cases.append(translate_link(link))
+            except ValueError:
+                skipped += 1
+                continue
+            light.links.append(link)
+        SHIPPED[name] = {'ff': light, 'links': cases, 'skipped': skipped}
+
+
+@st.composite
+def _shipped_cases(draw):
+    d = D(draw)
+    nres = d.ri(3, 8)
+    residues = []
+    resid = d.ri(1, 30)
+    chain = 'A'
+    ss = d.ch(SHIPPED_SS)
+    for r in range(nres):
+        if r > 0:
+            if chain == 'A' and r >= 3 and d.pr(10):
+                chain = 'B'
+                resid = d.ri(1, 30)
+            else:
+                resid += d.ch([1, 1, 1, 1, 1, 1, 1, 1, 2, 5, 0, -2])
+            if d.pr(35):
+                ss = d.ch(SHIPPED_SS)
+        residues.append({'resname': d.ch(SHIPPED_RESNAMES), 'resid': resid, 'chain': chain,
+                         'ss': ss if d.pr(95) else None, 'idr': d.ch([None, None, None, True, False]),
+                         'bonded': (r > 0 and d.pr(90))})
+    extra = []
+    for _ in range(d.ch([0, 0, 0, 1, 1, 2])):
+        r1, r2 = d.sample(range(nres), 2)
+        extra.append([r1, d.ch([0, 1, 1]), r2, d.ch([0, 1, 1])])
+    positions = [d.ri(0, 63) / 8.0 for _ in range(3 * 5 * nres)]
+    meta = {}
+    if d.pr(60):
+        meta['scfix'] = d.ch([True, True, False])
+    return {'ff': d.ch(SHIPPED_NAMES), 'residues': residues, 'extra': extra, 'positions': positions, 'meta': meta}
+
+
+def _strategy_shipped(tier):
+    return _shipped_cases()
+
+
+def shipped_molecule(case):
+    blocks = SHIPPED[case['ff']]['ff'].blocks
+    nodes = []
+    edges = []
+    inter = []
+    beads = []
+    nid = 0
+    pos = case['positions']
+    for res in case['residues']:
+        block = blocks[res['resname']]
+        names = {}
+        for name, attrs in block.nodes(data=True):
+            new = {k: v for k, v in attrs.items()}
+            new['resid'] = res['resid']
+            new['chain'] = res['chain']
+            if res['ss'] is not None:
+                new['cgsecstruct'] = res['ss']
+            if res['idr'] is not None:
+                new['cgidr'] = res['idr']
+            new['position'] = [pos[(3 * nid) % len(pos)], pos[(3 * nid + 1) % len(pos)], pos[(3 * nid + 2) % len(pos)]]
+            names[name] = nid
+            nodes.append([nid, new])
+            nid += 1
+        for a, b in block.edges:
+            edges.append([names[a], names[b]])
+        for type_, interactions in block.interactions.items():
+            for i in interactions:
+                inter.append([type_, [names[a] for a in i.atoms], list(i.parameters), dict(i.meta)])
+        beads.append([names[n] for n in block.nodes])
+    present = set(frozenset(e) for e in edges)
+    for r, res in enumerate(case['residues']):
+        if res['bonded']:
+            edge = [beads[r - 1][0], beads[r][0]]
+            if frozenset(edge) not in present:
+                present.add(frozenset(edge))
+                edges.append(edge)
+    for r1, b1, r2, b2 in case['extra']:
+        a = beads[r1][min(b1, len(beads[r1]) - 1)]
+        b = beads[r2][min(b2, len(beads[r2]) - 1)]
+        if a != b and frozenset((a, b)) not in present:
+            present.add(frozenset((a, b)))
+            edges.append([a, b])
+    return {'meta': dict(case['meta']), 'nodes': nodes, 'edges': edges, 'inter': inter}
+
+
+def _run_shipped(case):
+    data = SHIPPED[case['ff']]
+    mol = shipped_molecule(case)
+    for _type, _atoms, params, _meta in mol['inter']:
+        if not all(isinstance(p, str) for p in params):
+            raise HarnessError('block interaction with a non-text parameter')
+    molecule = build_molecule(mol, data['ff'])
+    result = do_links.DoLinks().run_molecule(molecule)
+    model = ref.Model(mol)
+    reports = []
+    for index, link in enumerate(data['links']):
+        reports.append(ref.apply_link(model, link, index, budget=0))
+    justified = set()
+    for report in reports:
+        justified |= report['justified']
+    initial = set((t, tuple(a)) for t, a, _p, _m in mol['inter'])
+    compare_nodes(result, model, None)
+    compare_interactions(result, model, justified, initial, None)
+    placed = sum(len(r['placements']) for r in reports)
+    links_placed = sum(1 for r in reports if r['placements'])
+    classes = ['ff:' + case['ff']]
+    for name in ('removed_hits', 'overrides', 'replace_applied'):
+        if any(r[name] for r in reports):
+            classes.append(name.replace('_', '-'))
+    if model.ambiguous_types:
+        classes.append('ambiguous')
+    if any(not r['molmeta'] for r in reports):
+        classes.append('molmeta-blocked')
+    if any(isinstance(p, ref.Computed) for lst in model.inter.values() for i in lst for p in i['params']):
+        classes.append('effector')
+    return Outcome(classes, placed >= 10 and links_placed >= 3)
+
+
 PARTS = [
     Part('toy', _run_toy, strategy=_strategy_toy,
          examples={'quick': 1400, 'thorough': 30000}),
     Part('order-table', _run_table, enumerate=_enumerate_table),
+    Part('shipped', _run_shipped, strategy=_strategy_shipped,
+         examples={'quick': 320, 'thorough': 6000}),
 ]
